@@ -44,7 +44,9 @@ def run_one(tape):
   sim, spec, exp, rec, obs, failed = wmeas.run(tape, for_c10=False)
   viols = []
   probes = {}
-  log = sim.log
+  log = sim.log[obs.get('log_from', 0):]
+  if obs.get('prior_run'):
+    probes['observed_run_follows_a_run_with_active_conditionals'] = 1
   if failed in ('deadlock', 'hang'):
     viols.append({'clause': 'phase_stuck', 'details': {'info': (sim.failed_info or '')[:200]}})
   elif failed is None and rec is not None:
